@@ -1,3 +1,3 @@
-*=0x2fff0
+*=0x8000
 .db 1
 .include '/verif/proj_abs/common_inc.s'
